@@ -172,12 +172,27 @@ func (in *Inst) AddMonitor(id string, method string, req map[string]interface{})
 	wire := map[string]interface{}{}
 	for t, r := range req {
 		rm := r.(map[string]interface{})
-		wire[t] = map[string]interface{}{
-			"columns": rm["columns"],
-			"select": map[string]interface{}{
-				"initial": rm["initial"], "insert": rm["insert"], "delete": rm["delete"], "modify": rm["modify"],
-			},
+		w := map[string]interface{}{}
+		form, _ := rm["wire"].(string)
+		if form != "nocols" && form != "bare" {
+			w["columns"] = rm["columns"]
 		}
+		switch form {
+		case "nosel", "bare":
+		case "partial":
+			sel := map[string]interface{}{}
+			for _, f := range []string{"initial", "insert", "delete", "modify"} {
+				if b, ok := rm[f].(bool); ok && !b {
+					sel[f] = false
+				}
+			}
+			w["select"] = sel
+		default:
+			w["select"] = map[string]interface{}{
+				"initial": rm["initial"], "insert": rm["insert"], "delete": rm["delete"], "modify": rm["modify"],
+			}
+		}
+		wire[t] = w
 	}
 	params := []interface{}{in.Ctx.Abs.Name, id, wire}
 	if method == "monitor_cond_since" {
@@ -540,7 +555,31 @@ func RandomMonitorReq(s *abs.Schema, rnd *rand.Rand, allSelected bool) map[strin
 			cols = append(cols, s.Tables[t].ColNames()[0])
 		}
 		sel := func() bool { return allSelected || rnd.Intn(4) != 0 }
-		req[t] = map[string]interface{}{"columns": cols, "initial": true, "insert": sel(), "delete": sel(), "modify": sel()}
+		r := map[string]interface{}{"columns": cols, "initial": true, "insert": sel(), "delete": sel(), "modify": sel(), "wire": "full"}
+		// the request as sent: members may be left out, which means "everything" (RFC 7047 4.1.5)
+		switch rnd.Intn(8) {
+		case 0:
+			r["wire"] = "nosel"
+			r["insert"], r["delete"], r["modify"] = true, true, true
+		case 1:
+			r["wire"] = "nocols"
+			all := []interface{}{}
+			for _, c := range s.Tables[t].ColNames() {
+				all = append(all, c)
+			}
+			r["columns"] = all
+		case 2:
+			r["wire"] = "bare"
+			all := []interface{}{}
+			for _, c := range s.Tables[t].ColNames() {
+				all = append(all, c)
+			}
+			r["columns"] = all
+			r["insert"], r["delete"], r["modify"] = true, true, true
+		case 3:
+			r["wire"] = "partial" // only the flags that are false are sent
+		}
+		req[t] = r
 	}
 	if len(req) == 0 {
 		t := tables[0]
